@@ -33,6 +33,7 @@ had to be changed* (`flags`), which the property modules use to describe known-d
   divzero   some evaluated / or % had a zero divisor          (undefined)
   negshift  some evaluated shift had a negative count          (undefined)
   bigshift  some evaluated shift had a count >= width          (undefined)
+  neglshift some evaluated << had a negative signed left operand (undefined)
 
 Every function works on plain ints and on symx SymInt (exact integer arithmetic in the engine's
 W-bit domain followed by explicit reduction: the engine guarantees that its arithmetic does not wrap).
@@ -177,7 +178,7 @@ class Eval:
         self.lits = lits
         self.defined = True
         self.flags = dict(wrap=False, overflow=False, floordiv=False, divzero=False, negshift=False,
-                          bigshift=False)
+                          bigshift=False, neglshift=False)
 
     # -- bookkeeping ---------------------------------------------------------------------------
     def _flag(self, name, g, cond):
@@ -279,6 +280,7 @@ class Eval:
             if k == "shr":
                 return a >> n, t                     # floor(a / 2**n): arithmetic shift of negatives (gcc)
             if dm.signed(t):
+                self._flag("neglshift", g, a < 0)
                 self._undef(g, a < 0)
                 a = _bounded(ite(a < 0, 0, a), 0, dm.hi(t))
             return self._arith(a << n, t, g), t
